@@ -129,7 +129,10 @@ def run_ref(toks):
                 b = B[int(a[1])]
                 out.append("-" if b.ca or not b.a else ",".join(sorted("%d*%d" % kv for kv in b.a.items()))); b.ca = True
             elif op == "cp":
-                B[int(a[1])] = B[int(a[2])].copy(); out.append("ok")
+                if a[1] == a[2]:
+                    out.append("ok")             # x = x: nothing changes, the read cursors included
+                else:
+                    B[int(a[1])] = B[int(a[2])].copy(); out.append("ok")
             elif op == "w":
                 out.append(("w", B[int(a[1])].sig()))
             elif op[0] == "a" or (op[0] == "r" and op[1:] == "md"):      # rmd: the same add through a re-used application object
